@@ -4,7 +4,7 @@ from .. import env, histgen, session, wire, scripts, refmatch as rm
 from ..runner import Prop, Stage, Result
 from .c08 import gen_chatter
 
-PROFILE = dict(reuse=0.6, weights=dict(newer=4, delete=16, bind=12, message=40, server_event=8, sync=6, enum=16, title=6, kinds=12))
+PROFILE = dict(reuse=0.6, weights=dict(newer=4, delete=16, bind=12, message=40, server_event=8, sync=6, enum=16, title=6, kinds=18))
 PALETTE = ['2;37', '1;96', '36', '1;94', None, '95', '2;35', '93', '1;33', '35', '1;37', '1;92', '1;91', '1;31', '0', '']
 ESC = '\x1b'
 
